@@ -122,6 +122,11 @@ pub struct ForgePlan {
     pub after: Vec<Ent>,
     pub have_local: bool,
     pub two_parts: bool,
+    /// timestamps beyond the bound only: the replica first accepts, through the same ingress
+    /// path, an honest entry whose timestamp is exactly at the bound; the bound must not move
+    /// with what was accepted
+    #[serde(default)]
+    pub ladder: bool,
     pub subscribers: u8,
     pub status: u8,
     /// the receiving store holds the secret keys of all authors (it is the forged author's own node)
@@ -333,6 +338,7 @@ impl Scenario for Forge {
             after: (0..rng.urange(0, 3)).map(|_| ent(rng)).collect(),
             have_local: rng.chance(1, 2),
             two_parts: rng.chance(1, 2),
+            ladder: rng.chance(1, 2),
             subscribers: rng.below(3) as u8,
             status: rng.below(3) as u8,
             own_authors: rng.chance(1, 3),
@@ -468,10 +474,21 @@ async fn run(plan: &ForgePlan, cx: &mut Cx) -> Res {
             rxs.push(rx);
         }
         let mut model = RefDoc::default();
-        for e in &plan.prefill {
+        let mut prefill = plan.prefill.clone();
+        if let (Tamper::Future { delta }, true) = (&plan.tamper, plan.ladder) {
+            if *delta < 0 {
+                // a stepping stone exactly at the bound, from another author at a key of its own
+                prefill.push(Ent { d: 0, a: (plan.victim.a + 1) % 2, k: vec![0xFE, 0x01, 0x01], ts: now + SHIFT, c: 1 });
+                cx.probe("entry_at_the_bound_accepted_before_one_beyond_it");
+            }
+        }
+        for e in &prefill {
             let mut e = e.clone();
             e.d = 0;
-            let _ = node.handle.insert_remote(ns, e.signed(), PEER, ContentStatus::Missing).await;
+            let r = node.handle.insert_remote(ns, e.signed(), PEER, ContentStatus::Missing).await;
+            if e.ts == now + SHIFT && e.k == [0xFE, 0x01, 0x01] && r.is_err() && !plan.read_only {
+                return Err(Violation::new("bound/rejected-at-bound", format!("[{path}] an honest entry exactly at the future bound was refused: {r:?}")));
+            }
             model.offer(&e);
         }
         for rx in &rxs {
